@@ -371,7 +371,11 @@ func (x *expecter) expect(k string) *D {
 				if parent.K == "any" {
 					d = &D{K: "any"}
 				} else {
-					x.err = "model: parent descriptor " + parent.Canon() + " has no field " + pv.Via
+					if x.err == "" {
+						x.err = "model: parent descriptor " + parent.Canon() + " has no field " + pv.Via
+					} else {
+						x.err = "the field's designated parent was not produced: " + x.err
+					}
 					d = &D{K: "unknown"}
 				}
 			} else if pv.OutIdx == 1 {
